@@ -30,11 +30,17 @@ Lemma iluk_exact_on_pattern_refuted :
     lu_entry L U D i j <> mget A i j.
 Proof.
   exists 1%nat, iluk_witness, [].
-  destruct (iluk 1 iluk_witness []) as [[L U] D] eqn:E.
-  exists L, U, D, 3%nat, 4%nat.
-  vm_compute in E. inversion E; subst L U D; clear E.
-  repeat split; try (vm_compute; reflexivity); try (vm_compute; lia).
-  vm_compute. intro H. discriminate H.
+  set (r := iluk 1 iluk_witness []).
+  exists (fst (fst r)), (snd (fst r)), (snd r), 3%nat, 4%nat.
+  split; [vm_compute; reflexivity|].
+  split; [reflexivity|].
+  split; [vm_compute; reflexivity|].
+  split; [vm_compute; reflexivity|].
+  split; [destruct r as [[a b] c]; reflexivity|].
+  split; [vm_compute; reflexivity|].
+  split; [unfold iluk_witness, nrows; simpl; lia|].
+  split; [vm_compute; reflexivity|].
+  intro H. apply (proj2 (QcS_eqb _ _)) in H. vm_compute in H. discriminate H.
 Qed.
 
 (* the value: (LU)_{3,4} = -1/16 while a_{3,4} = 0 *)
@@ -48,15 +54,44 @@ Proof. vm_compute. split; reflexivity. Qed.
 Definition ilut_witness : crs QcS :=
   mkCrs 2 [[(0, qz 2); (1, qz 1)]; [(0, qc 5 3); (1, qc 19 6)]]%nat.
 Lemma ilut_p1_not_exact_on_tridiagonal :
-  let '(L, U, D, tie) := ilut (1 # 1)%Q (qz 0) ilut_witness [] in
-  tie = false /\ no_zero_pivot D = true /\ nth 0 (rows U) [] = [] /\
+  let r := ilut (1 # 1)%Q (qz 0) ilut_witness [] in
+  let L := fst (fst (fst r)) in let U := snd (fst (fst r)) in let D := snd (fst r) in
+  snd r = false /\ no_zero_pivot D = true /\ nth 0 (rows U) [] = [] /\
   lu_entry L U D 0 1 <> mget ilut_witness 0 1.
-Proof. vm_compute. repeat split. intro H; discriminate H. Qed.
+Proof.
+  cbv zeta. split; [vm_compute; reflexivity|]. split; [vm_compute; reflexivity|].
+  split; [vm_compute; reflexivity|].
+  intro H. apply (proj2 (QcS_eqb _ _)) in H. vm_compute in H. discriminate H.
+Qed.
 (* with the default fill factor p = 2 the same matrix is factored exactly *)
 Lemma ilut_p2_exact_on_witness :
   let '(L, U, D, tie) := ilut (2 # 1)%Q (qz 0) ilut_witness [] in
   forallb (fun ij => seqb (lu_entry L U D (fst ij) (snd ij)) (mget ilut_witness (fst ij) (snd ij)))
           [(0,0); (0,1); (1,0); (1,1)]%nat = true.
+Proof. vm_compute. reflexivity. Qed.
+
+
+(* non-vacuity check for the sweep theorems: 3x3 tridiagonal A, x* = (1,2,3), f = A x*:
+   hypotheses hold, x* is a fixed point of GS / Jacobi / ILU(0) / Chebyshev sweeps, and a sweep
+   from another vector does move (so "sweep f x = x" is not trivially true) *)
+Definition veqb {S : Scalar} (x y : vec S) : bool :=
+  Nat.eqb (length x) (length y) && forallb (fun ab => seqb (fst ab) (snd ab)) (combine x y).
+Definition c06_sweeps_check : bool :=
+  let A : crs QcS := mkCrs 3 [[(0, qz 4); (1, qz (-1))]; [(0, qz (-1)); (1, qz 4); (2, qz (-1))];
+                              [(1, qz (-1)); (2, qz 4)]]%nat in
+  let xs := [qz 1; qz 2; qz 3] in let f := [qz 2; qz 4; qz 10] in let z := [qz 0; qz 0; qz 0] in
+  wf A && has_diag A && rows_sorted A &&
+  veqb (spmv (qz 1) A xs (qz 0) z) f &&
+  veqb (gs_sweep A f xs true) xs && veqb (gs_sweep A f xs false) xs &&
+  veqb (fst (jacobi_sweep (qc 1 2) (jacobi_setup A []) A f xs z)) xs &&
+  veqb (fst (spai0_sweep (spai0_setup A) A f xs z)) xs &&
+  negb (veqb (gs_sweep A f z true) z) &&
+  match ilu0 A [] with
+  | Ok (L, U, D) => veqb (fst (ilu_sweep (qc 3 4) L U D A f xs z)) xs
+                    && veqb (ilu_apply L U D f z) xs      (* tridiagonal: exact solve *)
+  | Err _ => false
+  end.
+Lemma c06_sweeps_check_ok : c06_sweeps_check = true.
 Proof. vm_compute. reflexivity. Qed.
 
 (* ILUP = ILU(0) applied to P = ilup_matrix k A (pattern of A^(k+1), values of A): exactness
